@@ -87,8 +87,10 @@ func (b *Buffer[K, V]) Add(n ReadBufItem[K, V]) *PolicyBuffers[K, V] {
 	tail := b.tail.Load()
 	size := tail - head
 	if size >= capacity {
-		// full buffer
-		return nil
+		// full buffer: the Add that filled it could not take the returned token
+		// because the previous batch was still being processed. Drain it now if
+		// the token is back, otherwise drop the event.
+		return b.drain()
 	}
 	if b.tail.CompareAndSwap(tail, tail+1) {
 		// success
@@ -99,31 +101,39 @@ func (b *Buffer[K, V]) Add(n ReadBufItem[K, V]) *PolicyBuffers[K, V] {
 		}))
 		if size == capacity-1 {
 			// try return new buffer
-			if !atomic.CompareAndSwapPointer(&b.returned, b.policyBuffers, nil) {
-				// somebody already get buffer
-				return nil
-			}
-
-			pb := (*PolicyBuffers[K, V])(b.policyBuffers)
-			for i := 0; i < capacity; i++ {
-				index := int(head & mask)
-				v := atomic.LoadPointer(&b.buffer[index])
-				if v != nil {
-					// published
-					pb.Returned = append(pb.Returned, *castToPointer[K, V](v))
-					// release
-					atomic.StorePointer(&b.buffer[index], nil)
-				}
-				head++
-			}
-
-			b.head.Store(head)
-			return pb
+			return b.drain()
 		}
 	}
 
 	// failed
 	return nil
+}
+
+// drain takes the returned token and moves the published items to the policy buffer.
+// It returns nil when somebody else holds the token.
+func (b *Buffer[K, V]) drain() *PolicyBuffers[K, V] {
+	if !atomic.CompareAndSwapPointer(&b.returned, b.policyBuffers, nil) {
+		// somebody already get buffer
+		return nil
+	}
+
+	// head is only moved by the holder of the token
+	head := b.head.Load()
+	pb := (*PolicyBuffers[K, V])(b.policyBuffers)
+	for i := 0; i < capacity; i++ {
+		index := int(head & mask)
+		v := atomic.LoadPointer(&b.buffer[index])
+		if v != nil {
+			// published
+			pb.Returned = append(pb.Returned, *castToPointer[K, V](v))
+			// release
+			atomic.StorePointer(&b.buffer[index], nil)
+		}
+		head++
+	}
+
+	b.head.Store(head)
+	return pb
 }
 
 // Load all items in buffer, used in test only to update policy proactive proactively
